@@ -4,6 +4,7 @@ import (
 	"fmt"
 	"go/token"
 	"go/types"
+	"strings"
 	"unicode/utf8"
 
 	"gosx/smt"
@@ -969,6 +970,46 @@ type rangeIter struct {
 	isS  bool
 	perm []int
 	bs   []*smt.Term // range over a string with symbolic bytes
+	rev  bool        // maps: reverse insertion order
+}
+
+// rangeInitAt: Go does not specify the iteration order of maps. For range statements outside the harness over
+// maps with at least two keys, two orders are explored (insertion order and its reverse; the choice is made
+// once per range statement and path), which exposes code whose result depends on the order without paying for
+// every permutation.
+func (in *Interp) rangeInitAt(fr *Frame, ins *ssa.Range, x Value) Value {
+	v := in.rangeInit(x)
+	if x.K != KMap || x.R == nil {
+		return v
+	}
+	pkg := fnPkgPath(fr.Fn)
+	if strings.HasSuffix(pkg, "/zz_verif") || strings.Contains(pkg, "/internal/vx") || in.initMode {
+		return v
+	}
+	m := x.R.(*MapV)
+	live := 0
+	for _, l := range m.Live {
+		if l {
+			live++
+		}
+	}
+	if live < 2 {
+		return v
+	}
+	rev, seen := in.mapOrder[ins]
+	if !seen {
+		rev = in.Pick(2, "map-order") == 1
+		if in.mapOrder == nil {
+			in.mapOrder = map[*ssa.Range]bool{}
+		}
+		in.mapOrder[ins] = rev
+	}
+	if rev {
+		it := v.R.(*rangeIter)
+		it.rev = true
+		it.i = len(m.Keys) - 1
+	}
+	return v
 }
 
 func (in *Interp) rangeInit(x Value) Value {
@@ -1019,6 +1060,16 @@ func (in *Interp) rangeNext(itv Value, ins *ssa.Next) Value {
 		}
 	}
 	tt := ins.Type().(*types.Tuple)
+	if it.m != nil && it.rev {
+		for it.i >= 0 {
+			i := it.i
+			it.i--
+			if i < len(it.m.Keys) && it.m.Live[i] {
+				return Value{K: KTuple, R: []Value{mkBool(true), it.m.Keys[i], copyVal(it.m.Vals[i])}}
+			}
+		}
+		return Value{K: KTuple, R: []Value{mkBool(false), zeroOrInvalid(tt.At(1).Type()), zeroOrInvalid(tt.At(2).Type())}}
+	}
 	if it.m != nil {
 		for it.i < len(it.m.Keys) {
 			i := it.i
